@@ -220,6 +220,7 @@ class SamplerCore:
             u = u[idx]
             x = x[idx]
             logl = logl[idx]
+            logw = logw[idx]
             if blobs is not None:
                 blobs = blobs[idx]
 
@@ -230,6 +231,7 @@ class SamplerCore:
             u = u[idx]
             x = x[idx]
             logl = logl[idx]
+            logw = logw[idx]
             if blobs is not None:
                 blobs = blobs[idx]
             weights = np.ones(len(idx)) / len(idx)
